@@ -389,8 +389,8 @@ def gen_targets(rng, cwd, shape, L=None):
 
 FAMILIES = ['track', 'carry-in', 'recheck', 'list', 'send', 'bring', 'remove', 'untrack', 'copy', 'move']
 SHAPES = ['file', 'files', 'dir/', 'dir', 'glob', 'mixed', 'none']
-# the families that accept "no targets" (remove and untrack require targets; copy/move take source and destination)
-NOTARGET_FAMILIES = ['track', 'carry-in', 'recheck', 'list', 'send', 'bring']
+# the families that accept "no targets" (remove and untrack too since the repair F33; copy/move take source and destination)
+NOTARGET_FAMILIES = ['track', 'carry-in', 'recheck', 'list', 'send', 'bring', 'remove', 'untrack']
 
 
 def gen_case(rng, chk, family=None, cwd=None, shape=None, layout='base', variant=None, dest_kind=None, dest_state=None, force=None, dest_spelling=None):
@@ -431,8 +431,6 @@ def gen_case(rng, chk, family=None, cwd=None, shape=None, layout='base', variant
     else:
         # on the adversarial layout the no-target shape (the second sentence of C18) gets a third of the random cases
         shape = shape or (rng.choice(SHAPES) if layout == 'base' or rng.random() >= 0.25 else 'none')
-        if family in ('untrack', 'remove') and shape == 'none':
-            shape = 'dir/'                                   # these commands require targets
         case['shape'] = shape
         case['targets'] = gen_targets(rng, cwd, shape, L)
         if family == 'recheck' and rng.random() < 0.5:
